@@ -618,8 +618,15 @@ pub trait AutoMerge: RemoteSyncHandler {
             return Ok(AutoMergeStatus::RewindLocal(remote));
         }
 
-        // Combine the event records
-        local.extend(remote);
+        // Combine the event records, an identical event
+        // committed independently on both sides counts once
+        let local_commits =
+            local.iter().map(|r| *r.commit()).collect::<HashSet<_>>();
+        local.extend(
+            remote
+                .into_iter()
+                .filter(|r| !local_commits.contains(r.commit())),
+        );
 
         // Sort by time so the more recent changes will win (LWW)
         local.sort_by(|a, b| a.time().cmp(b.time()));
